@@ -15,9 +15,12 @@
 #include <stdio.h>
 #include <stdlib.h>
 #include <string.h>
+#include <unistd.h>
 
 enum { K_WORKER, K_LOOP };
-enum { ST_NEW, ST_START, ST_WAIT, ST_UNLOCKED, ST_INWORK, ST_CMD, ST_BLOCKED, ST_DEAD };
+enum { ST_NEW, ST_START, ST_WAIT, ST_UNLOCKED, ST_INWORK, ST_CMD, ST_BLOCKED, ST_DEAD,
+       ST_INIT /* inside the pool's one-time initialisation */, ST_ONCE /* waiting in uv_once for the initialiser */,
+       ST_SEMWAIT /* initialiser waits for a new worker's start-up post */ };
 
 struct mx { void* addr; struct th* owner; char name[8]; };
 
@@ -126,7 +129,11 @@ static struct mx* mx_reg(void* addr, const char* name) {
 
 static void sched_lock(void* addr) {
   struct mx* m = mx_find(addr);
-  if (m == NULL) { printf("MON lock of unknown mutex\n"); abort(); }
+  if (m == NULL) {
+    printf("MON uninit-pool-use a mutex is locked that was never initialised (pool used before/while it is set up)\n");
+    fflush(stdout);
+    _exit(3);
+  }
   if (self == NULL) { printf("MON controller locks\n"); abort(); }
   while (m->owner != NULL) {           /* contended: not runnable until released */
     self->blocked_on = m;
